@@ -1,8 +1,8 @@
 /-
-  CB.Lemmas.C09Lincomb — lincomb chunking / recombination and the bridge to C08's `Good` parameter sets.
+  CB.Lemmas.C09Lincomb — the bridge to C08's `Good` parameter sets, and lincomb: one reduced window, the
+  `max_accum = 2^mod_leading_zeros` chunking, the `add_mod` recombination, fixed = boxed.
 -/
-import CB.Lemmas.C09Pow
-import CB.Model.Lincomb
+import CB.Lemmas.C09Longa
 namespace CB.Pow
 open CB CB.Monty
 
@@ -33,3 +33,262 @@ theorem eq_canon_of_rep {p : Params} {n m : Nat} (g : Good p n m) {z : List Nat}
   exact eq_canon_of_val h.wf (by rw [h.len, hl]) (by rw [h.eq, hv, hl])
 
 end CB.Pow
+
+namespace CB.Lincomb
+open CB CB.Monty CB.Pow
+
+/-- `z` is a reduced `n`-limb value with `z·B^n ≡ S (mod m)`: the Montgomery-level meaning of "`z` is the sum `S`
+    of products of Montgomery forms". -/
+structure WinOK (ms z : List Nat) (S : Nat) : Prop where
+  wf : WF z
+  len : z.length = ms.length
+  lt : val z < val ms
+  cong : val z * B ^ ms.length ≡ S [MOD val ms]
+
+theorem TermsOK.take {n M terms} (h : TermsOK n M terms) (c : Nat) : TermsOK n M (terms.take c) :=
+  fun t ht => h t (List.mem_of_mem_take ht)
+theorem TermsOK.drop {n M terms} (h : TermsOK n M terms) (c : Nat) : TermsOK n M (terms.drop c) :=
+  fun t ht => h t (List.mem_of_mem_drop ht)
+
+theorem valDot_take_drop (terms : List (List Nat × List Nat)) (c : Nat) :
+    valDot (terms.take c) + valDot (terms.drop c) = valDot terms := by
+  rw [← valDot_append, List.take_append_drop]
+
+/-! ### one window -/
+
+/-- `buf.sub_mod_with_carry(carry, &modulus, &modulus)` after the accumulation (at most `B^n / m` terms). -/
+theorem windowFixed_spec {ms : List Nat} {k : Nat} (hm : ModOK ms k) {terms : List (List Nat × List Nat)}
+    (hT : TermsOK ms.length (val ms) terms) (hcap : terms.length * val ms ≤ B ^ ms.length) :
+    WinOK ms (windowFixed terms ms k) (valDot terms) := by
+  have ⟨hw, hl, hc, hU, hcong⟩ := longa_spec hm hT hcap
+  unfold windowFixed
+  have ⟨r1, r2, r3⟩ := addTail_spec hw hm.wf hl hc (by rw [hl]; exact hU)
+  rw [hl] at r1
+  refine ⟨r2, by rw [r3, hl], by rw [r1]; exact Nat.mod_lt _ hm.pos, ?_⟩
+  rw [r1]
+  exact ((Nat.mod_modEq _ _).mul_right _).trans hcong
+
+/-- the boxed `sub_assign_mod_with_carry(carry, p, p)` is the fixed-width one for every `carry ≤ 1`. -/
+theorem bSubAssign_eq {a p : List Nat} {c : Nat} (ha : WF a) (hp : WF p) (hl : a.length = p.length)
+    (hne : a ≠ []) (hc : c ≤ 1) : bSubAssignModWithCarry a c p p = subModWithCarry a c p p := by
+  have ⟨_, _, s3⟩ := usbb_spec ha hp B_pos hl
+  obtain ⟨b, hb⟩ := borrow_is_mask (s3 hne)
+  rw [bSubAssign_unfold, condAdc_fst _ _ p _ rfl]
+  simp only [subModWithCarry]
+  rw [hb]
+  have : nzMask (wnot (wneg c) &&& mask b) = wnot (wneg c) &&& mask b := by
+    rcases Nat.le_one_iff_eq_zero_or_eq_one.mp hc with h | h <;> subst h <;> cases b <;> decide
+  rw [this]
+
+theorem ms_ne_nil {ms : List Nat} {k : Nat} (hm : ModOK ms k) : ms ≠ [] := by
+  intro h; have := hm.pos; rw [h] at this; simp at this
+
+theorem ne_nil_of_len {z ms : List Nat} {k : Nat} (hm : ModOK ms k) (hl : z.length = ms.length) : z ≠ [] := by
+  intro h; rw [h] at hl; exact ms_ne_nil hm (List.length_eq_zero_iff.mp hl.symm)
+
+theorem windowBoxed_eq {ms : List Nat} {k : Nat} (hm : ModOK ms k) {terms : List (List Nat × List Nat)}
+    (hT : TermsOK ms.length (val ms) terms) (hcap : terms.length * val ms ≤ B ^ ms.length) :
+    windowBoxed terms ms k = windowFixed terms ms k := by
+  have ⟨hw, hl, hc, _, _⟩ := longa_spec hm hT hcap
+  unfold windowBoxed windowFixed
+  exact bSubAssign_eq hw hm.wf hl (ne_nil_of_len hm hl) hc
+
+/-! ### recombination of windows -/
+
+/-- `ret.add_mod(&buf, modulus)` adds the denoted sums. -/
+theorem WinOK.add {ms ret w : List Nat} {k S W : Nat} (hm : ModOK ms k) (hr : WinOK ms ret S) (hw : WinOK ms w W) :
+    WinOK ms (addMod ret w ms) (S + W) := by
+  have ⟨⟨v, wf, l⟩, _⟩ := addMod_spec hr.wf hw.wf hm.wf (by rw [hr.len, hw.len]) hr.len hr.lt hw.lt
+  refine ⟨wf, by rw [l, hr.len], by rw [v]; exact Nat.mod_lt _ hm.pos, ?_⟩
+  rw [v]
+  calc (val ret + val w) % val ms * B ^ ms.length
+      ≡ (val ret + val w) * B ^ ms.length [MOD val ms] := (Nat.mod_modEq _ _).mul_right _
+    _ = val ret * B ^ ms.length + val w * B ^ ms.length := Nat.add_mul ..
+    _ ≡ S + W [MOD val ms] := hr.cong.add hw.cong
+
+/-- the boxed recombination `carry = ret.adc_assign(&buf, 0); ret.sub_assign_mod_with_carry(carry, m, m)` is
+    `add_mod`. -/
+theorem boxedAdd_eq {ms ret w : List Nat} {k S W : Nat} (hm : ModOK ms k) (hr : WinOK ms ret S)
+    (hw : WinOK ms w W) :
+    bSubAssignModWithCarry (uadc ret w 0).1 (uadc ret w 0).2 ms ms = addMod ret w ms := by
+  have hlen : ret.length = w.length := by rw [hr.len, hw.len]
+  have sw := uadc_WF ret w 0
+  have sl := uadc_length ret w 0 hlen
+  have sc : (uadc ret w 0).2 ≤ 1 := uadc_carry_le_one hr.wf hw.wf (by omega)
+  have hne : (uadc ret w 0).1 ≠ [] := ne_nil_of_len hm (sl.trans hr.len)
+  rw [bSubAssign_eq sw hm.wf (sl.trans hr.len) hne sc, addMod_unfold]
+  exact (addTail_eq sw hm.wf (sl.trans hr.len) hne sc).1.symm
+
+theorem chunkLoopFixed_succ (ms : List Nat) (k maxAccum fuel : Nat) (products : List (List Nat × List Nat))
+    (ret : List Nat) :
+    chunkLoopFixed ms k maxAccum (fuel + 1) products ret =
+      if products.length = 0 then ret
+      else chunkLoopFixed ms k maxAccum fuel (products.drop (min products.length maxAccum))
+        (addMod ret (windowFixed (products.take (min products.length maxAccum)) ms k) ms) := rfl
+
+theorem chunkLoopBoxed_succ (ms : List Nat) (k maxAccum fuel : Nat) (products : List (List Nat × List Nat))
+    (ret : List Nat) :
+    chunkLoopBoxed ms k maxAccum (fuel + 1) products ret =
+      if products.length = 0 then ret
+      else chunkLoopBoxed ms k maxAccum fuel (products.drop (min products.length maxAccum))
+        (bSubAssignModWithCarry
+          (uadc ret (windowBoxed (products.take (min products.length maxAccum)) ms k) 0).1
+          (uadc ret (windowBoxed (products.take (min products.length maxAccum)) ms k) 0).2 ms ms) := rfl
+
+/-- the window taken by one round of the chunk loop is a legal single window. -/
+theorem chunk_window_ok {ms : List Nat} {maxAccum : Nat}
+    (hcap : maxAccum * val ms ≤ B ^ ms.length) {products : List (List Nat × List Nat)}
+    (hT : TermsOK ms.length (val ms) products) :
+    TermsOK ms.length (val ms) (products.take (min products.length maxAccum)) ∧
+    (products.take (min products.length maxAccum)).length * val ms ≤ B ^ ms.length := by
+  refine ⟨hT.take _, ?_⟩
+  have : (products.take (min products.length maxAccum)).length ≤ maxAccum := by
+    rw [List.length_take]; omega
+  exact Nat.le_trans (Nat.mul_le_mul_right _ this) hcap
+
+/-- `while remain > 0`: every round adds one window; `fuel ≥ products.len()` rounds always suffice because
+    `max_accum ≥ 1`. -/
+theorem chunkLoopFixed_spec {ms : List Nat} {k maxAccum : Nat} (hm : ModOK ms k) (hpos : 0 < maxAccum)
+    (hcap : maxAccum * val ms ≤ B ^ ms.length) :
+    ∀ (fuel : Nat) (products : List (List Nat × List Nat)) (ret : List Nat) (S : Nat),
+      products.length ≤ fuel → TermsOK ms.length (val ms) products → WinOK ms ret S →
+      WinOK ms (chunkLoopFixed ms k maxAccum fuel products ret) (S + valDot products) ∧
+      chunkLoopBoxed ms k maxAccum fuel products ret = chunkLoopFixed ms k maxAccum fuel products ret := by
+  intro fuel
+  induction fuel with
+  | zero =>
+    intro products ret S hlen _ hr
+    have : products = [] := List.length_eq_zero_iff.mp (by omega)
+    subst this
+    exact ⟨by simpa [chunkLoopFixed, valDot] using hr, rfl⟩
+  | succ f ih =>
+    intro products ret S hlen hT hr
+    rw [chunkLoopFixed_succ, chunkLoopBoxed_succ]
+    by_cases h0 : products.length = 0
+    · have : products = [] := List.length_eq_zero_iff.mp h0
+      subst this
+      exact ⟨by simpa [valDot] using hr, by simp⟩
+    · simp only [h0, if_false]
+      have ⟨hTw, hcw⟩ := chunk_window_ok hcap hT
+      have hwin := windowFixed_spec hm hTw hcw
+      have hadd := hr.add hm hwin
+      have hdl : (products.drop (min products.length maxAccum)).length ≤ f := by
+        rw [List.length_drop]; omega
+      have ⟨r1, r2⟩ := ih _ _ _ hdl (hT.drop _) hadd
+      refine ⟨?_, ?_⟩
+      · have e : S + valDot (products.take (min products.length maxAccum)) +
+            valDot (products.drop (min products.length maxAccum)) = S + valDot products := by
+          rw [Nat.add_assoc, valDot_take_drop]
+        rw [← e]; exact r1
+      · rw [windowBoxed_eq hm hTw hcw, boxedAdd_eq hm hr hwin]
+        exact r2
+
+theorem uzero_winOK {ms : List Nat} {k : Nat} (hm : ModOK ms k) : WinOK ms (uzero ms.length) 0 :=
+  ⟨uzero_WF _, by simp [uzero], by rw [val_uzero]; exact hm.pos, by rw [val_uzero, Nat.zero_mul]⟩
+
+/-- `lincomb_monty_form` / `lincomb_const_monty_form` / `lincomb_boxed_monty_form` for ANY number of terms, given
+    that `2^mod_leading_zeros · m ≤ B^n` (which is what "leading zeros" means): the result is reduced and
+    `result·B^n ≡ Σ aᵢ·bᵢ (mod m)` on the stored Montgomery forms; the boxed routine returns the same limbs. -/
+theorem lincomb_spec {ms : List Nat} {k lz : Nat} (hm : ModOK ms k) (hlz : 2 ^ lz * val ms ≤ B ^ ms.length)
+    {terms : List (List Nat × List Nat)} (hT : TermsOK ms.length (val ms) terms) :
+    WinOK ms (lincombFixed terms ms k lz) (valDot terms) ∧
+    lincombBoxed terms ms k lz = lincombFixed terms ms k lz := by
+  have hsh : 1 <<< lz = 2 ^ lz := by rw [Nat.shiftLeft_eq, Nat.one_mul]
+  unfold lincombFixed lincombBoxed
+  rw [hsh]
+  by_cases hle : terms.length ≤ 2 ^ lz
+  · simp only [hle, if_true]
+    have hcap : terms.length * val ms ≤ B ^ ms.length := Nat.le_trans (Nat.mul_le_mul_right _ hle) hlz
+    exact ⟨windowFixed_spec hm hT hcap, windowBoxed_eq hm hT hcap⟩
+  · simp only [hle, if_false]
+    have ⟨r1, r2⟩ := chunkLoopFixed_spec hm (Nat.two_pow_pos lz) hlz terms.length terms (uzero ms.length) 0
+      (Nat.le_refl _) hT (uzero_winOK hm)
+    exact ⟨by simpa using r1, r2⟩
+
+/-! ### from Montgomery forms to residues -/
+
+/-- `Σ Aᵢ·Bᵢ` on residues (no reduction). -/
+def dotSpec : List (Nat × Nat) → Nat
+  | [] => 0
+  | XY :: rest => XY.1 * XY.2 + dotSpec rest
+
+theorem sumSpec_eq (m : Nat) (XYs : List (Nat × Nat)) : sumSpec m XYs = dotSpec XYs % m := by
+  induction XYs with
+  | nil => simp [sumSpec, dotSpec]
+  | cons a r ih =>
+    obtain ⟨x, y⟩ := a
+    simp only [sumSpec, dotSpec]
+    rw [ih, Nat.add_mod_mod]
+
+theorem dotSpec_mod (m : Nat) (abs : List (Nat × Nat)) :
+    dotSpec (abs.map fun ab => (ab.1 % m, ab.2 % m)) ≡ dotSpec abs [MOD m] := by
+  induction abs with
+  | nil => rfl
+  | cons a r ih =>
+    simp only [List.map_cons, dotSpec]
+    exact ((Nat.mod_modEq _ _).mul (Nat.mod_modEq _ _)).add ih
+
+theorem canon_congr {n m a b : Nat} (h : a ≡ b [MOD m]) : canon n m a = canon n m b := by
+  unfold canon
+  congr 1
+  exact h.mul_right _
+
+/-- a pair of canonical Montgomery forms matches a pair of residues. -/
+def PairOK (ms : List Nat) (t : List Nat × List Nat) (XY : Nat × Nat) : Prop :=
+  Rep ms t.1 XY.1 ∧ Rep ms t.2 XY.2
+
+theorem terms_of_pairs {ms : List Nat} {k : Nat} (hm : ModOK ms k) {terms : List (List Nat × List Nat)}
+    {XYs : List (Nat × Nat)} (h : List.Forall₂ (PairOK ms) terms XYs) :
+    TermsOK ms.length (val ms) terms ∧
+    valDot terms ≡ dotSpec XYs * B ^ ms.length * B ^ ms.length [MOD val ms] := by
+  induction h with
+  | nil =>
+    refine ⟨fun t ht => (by cases ht), ?_⟩
+    show 0 ≡ 0 * B ^ ms.length * B ^ ms.length [MOD val ms]
+    rw [Nat.zero_mul, Nat.zero_mul]
+  | @cons t XY ts XYs' h _ ih =>
+    obtain ⟨ha, hb⟩ := h
+    refine ⟨?_, ?_⟩
+    · intro x hx
+      rcases List.mem_cons.mp hx with e | e
+      · subst e; exact ⟨ha.wf, hb.wf, ha.len, hb.len, ha.lt hm, hb.lt hm⟩
+      · exact ih.1 x e
+    · simp only [valDot, dotSpec]
+      have h1 : val t.1 * val t.2 ≡ (XY.1 * B ^ ms.length) * (XY.2 * B ^ ms.length) [MOD val ms] := by
+        rw [ha.eq, hb.eq]; exact (Nat.mod_modEq _ _).mul (Nat.mod_modEq _ _)
+      have h2 := h1.add ih.2
+      have e : (XY.1 * XY.2 + dotSpec XYs') * B ^ ms.length * B ^ ms.length =
+          XY.1 * B ^ ms.length * (XY.2 * B ^ ms.length) + dotSpec XYs' * B ^ ms.length * B ^ ms.length := by ring
+      rw [e]; exact h2
+
+/-- a reduced value with `z·B^n ≡ V·B^n·B^n` is THE canonical Montgomery form of `V`. -/
+theorem WinOK.rep {ms z : List Nat} {k S V : Nat} (hm : ModOK ms k) (h : WinOK ms z S)
+    (hS : S ≡ V * B ^ ms.length * B ^ ms.length [MOD val ms]) : Rep ms z V := by
+  refine ⟨h.wf, h.len, ?_⟩
+  have hc : val z ≡ V * B ^ ms.length [MOD val ms] := by
+    apply Nat.ModEq.cancel_right_of_coprime (c := B ^ ms.length)
+    · exact Nat.Coprime.symm (coprime_Bpow_of_odd hm.odd ms.length)
+    · exact h.cong.trans hS
+  have := hc
+  unfold Nat.ModEq at this
+  rw [Nat.mod_eq_of_lt h.lt] at this
+  exact this
+
+/-- `2^min(leading_zeros(m), 63) · m ≤ B^n`: the accumulation limit `max_accum` never admits more terms than one
+    window can hold. -/
+theorem lz_ok {n m : Nat} (hm : m < B ^ n) (hpos : 0 < m) : 2 ^ (Nat.min (leadingZeros n m) 63) * m ≤ B ^ n := by
+  have hne : m ≠ 0 := by omega
+  have hbl : bitLen m = Nat.log2 m + 1 := by simp [bitLen, hne]
+  have h1 : m < 2 ^ bitLen m := by rw [hbl]; exact Nat.lt_log2_self
+  have hB : B ^ n = 2 ^ (64 * n) := by rw [B_eq_pow, ← Nat.pow_mul]
+  have h2 : bitLen m ≤ 64 * n := by
+    rw [hbl]
+    have : Nat.log2 m < 64 * n := (Nat.log2_lt hne).mpr (by rw [← hB]; exact hm)
+    omega
+  have h3 : 2 ^ (Nat.min (leadingZeros n m) 63) ≤ 2 ^ (64 * n - bitLen m) :=
+    Nat.pow_le_pow_right (by decide) (Nat.min_le_left _ _)
+  calc 2 ^ (Nat.min (leadingZeros n m) 63) * m ≤ 2 ^ (64 * n - bitLen m) * m := Nat.mul_le_mul_right _ h3
+    _ ≤ 2 ^ (64 * n - bitLen m) * 2 ^ bitLen m := Nat.mul_le_mul_left _ (Nat.le_of_lt h1)
+    _ = B ^ n := by rw [← Nat.pow_add, hB]; congr 1; omega
+
+end CB.Lincomb
